@@ -80,7 +80,9 @@ def step_env(step, outdir):
     if step.get("maporder"):
         env["VERIFSIM_MAPORDER"] = step["maporder"]
     if step.get("clock"):
-        env["VERIFSIM_CLOCK"] = str(step["clock"])
+        # origin : jitter seed - the simulated clock moves on by a seeded 0-2 ms per reading, differently in every step
+        import zlib
+        env["VERIFSIM_CLOCK"] = "%d:%d" % (step["clock"], 1 + zlib.crc32(repr((step.get("maporder") or "", step.get("hashseed") or 0, step["clock"])).encode()))
     if step.get("fault"):
         env["VERIFSIM_FAULTFS"] = step["fault"]
         env["VERIFSIM_FAULTFS_ROOT"] = outdir
